@@ -130,6 +130,55 @@ def c10():
         (0, "d", "   fb = count", 0, 9, [sel(files, "aA", "First(count", 0, 6, 5)], {"plain", "local"}, "right-hand side of the continued line"),
         (0, "d", "   BProc()", 0, 4, [sel(files, "aB", "proc BProc", 0, 5)], {"dotted", "right", "continued", "call"}, "member BProc of aB, an empty line in between"),
     ]))
+    # a parameter, a local and a field spelt like entities of the workspace (also in another letter case): variables of
+    # their declared type — as left operand of a dot, as argument, as plain identifier; where nothing hides it the name is the entity
+    T = "module aTools\n\nfunc Size return int4\nendfunc\n"
+    Pt = "class aPart\n\nSize : int4\nNext : refto aPart\n"
+    O = "class aOther\n\nSize : int4\n"
+    Th = "class aThird\n\nSize : cstring\n"
+    U = ("class aUser\n\nuses aTools, aPart, aOther\n\nATHIRD : aPart\n\nproc Run(aTools : aPart, plain : aPart)\n   var aOther : aPart\n"
+         "   WriteLn(plain.Size)\n   WriteLn(aTools.Size)\n   aOther.Next.Size = 1\n   ATOOLS.Size = 2\n   aThird.Size = 3\n"
+         "   Run(aTools, aOther)\n   plain = aother\nendProc\n\nproc Free\n   aTools.Size()\n   aOther\nendProc\n")
+    files = [("aUser", U), ("aTools", T), ("aPart", Pt), ("aOther", O), ("aThird", Th)]
+    size = [sel(files, "aPart", "Size : int4", 0, 0, 4)]
+    par, loc, fld = [sel(files, "aUser", "Run(aTools", 0, 4, 6)], [sel(files, "aUser", "var aOther", 0, 4, 6)], [sel(files, "aUser", "ATHIRD : aPart", 0, 0, 6)]
+    cases.append(case("shape-variable-named-like-entity", files, [
+        (0, "d", "plain.Size", 0, 7, size, {"dotted", "right"}, "member of an ordinary parameter"),
+        (0, "d", "WriteLn(aTools.Size)", 0, 9, par, {"left", "local", "entity-named"}, "parameter spelt like a used module, left of a dot"),
+        (0, "d", "WriteLn(aTools.Size)", 0, 16, size, {"dotted", "right", "after-entity-named"}, "its member: of the parameter's class, not the module's function"),
+        (0, "d", "aOther.Next.Size", 0, 1, loc, {"left", "local", "entity-named"}, "local spelt like a used class"),
+        (0, "d", "aOther.Next.Size", 0, 8, [sel(files, "aPart", "Next : refto", 0, 0, 4)], {"dotted", "right", "after-entity-named"}, "its member (aOther declares no Next)"),
+        (0, "d", "aOther.Next.Size", 0, 13, size, {"dotted", "right", "chained", "after-entity-named"}, "and the member of that"),
+        (0, "d", "ATOOLS.Size = 2", 0, 8, size, {"dotted", "right", "after-entity-named", "recased"}, "the parameter in another letter case"),
+        (0, "d", "aThird.Size = 3", 0, 2, fld, {"left", "member", "entity-named", "recased"}, "field spelt like a class that is neither used nor a relative"),
+        (0, "d", "aThird.Size = 3", 0, 8, size, {"dotted", "right", "after-entity-named"}, "its member: int4 Size of aPart, not cstring Size of aThird"),
+        (0, "d", "Run(aTools, aOther)", 0, 5, par, {"plain", "local", "entity-named"}, "as argument"),
+        (0, "d", "Run(aTools, aOther)", 0, 13, loc, {"plain", "local", "entity-named"}, "as argument"),
+        (0, "d", "plain = aother", 0, 10, loc, {"plain", "local", "entity-named", "recased"}, "as plain identifier"),
+        (0, "d", "   aTools.Size()", 0, 4, [sel(files, "aTools", "module aTools", 0, 7)], {"left", "module"}, "in another method nothing hides the module"),
+        (0, "d", "   aTools.Size()", 0, 11, [sel(files, "aTools", "func Size", 0, 5)], {"dotted", "right", "module-member", "call"}, "there the member is the module's function"),
+        (0, "d", "   aOther\nendProc", 0, 4, [sel(files, "aOther", "class aOther", 0, 6)], {"plain", "entity"}, "and the class name is the used class"),
+    ]))
+    # dots on operands that have no class: native and unresolved types, an untyped parameter, a name nothing declares, a
+    # procedure's result — complete names after them resolve to nothing (an unresolvable identifier is an empty result)
+    U = ("class aUser\n\nuses aTools\n\nfp : aPart\n\nproc Run(count : int4, anything)\n   var text : cstring\n   var odd : tNowhere\n"
+         "   count.Size = 1\n   text.Next.Size\n   anything.Size\n   zzNothing.Size\n   odd.Size\n   Run(1, 2).Size\n   fp.Size.Size\n   type.from\nendProc\n")
+    files = [("aUser", U), ("aTools", T), ("aPart", Pt)]
+    cases.append(case("shape-dot-on-classless-operand", files, [
+        (0, "d", "count.Size", 0, 7, [], {"dotted", "right", "unknown-operand", "operand-native"}, "member of an int4 parameter"),
+        (0, "d", "text.Next.Size", 0, 6, [], {"dotted", "right", "unknown-operand", "operand-native"}, "member of a cstring local"),
+        (0, "d", "text.Next.Size", 0, 11, [], {"dotted", "right", "chained", "unknown-operand"}, "and what follows it"),
+        (0, "d", "anything.Size", 0, 10, [], {"dotted", "right", "unknown-operand", "operand-untyped"}, "member of an untyped parameter"),
+        (0, "d", "zzNothing.Size", 0, 11, [], {"dotted", "right", "unknown-operand", "operand-untyped"}, "member of a name nothing declares"),
+        (0, "d", "zzNothing.Size", 0, 2, [], {"left", "unresolvable"}, "that name itself"),
+        (0, "d", "odd.Size", 0, 5, [], {"dotted", "right", "unknown-operand", "operand-unres"}, "member of a local whose type nothing declares"),
+        (0, "d", "var odd : tNowhere", 0, 12, [], {"typeref", "unresolved-type", "unresolvable"}, "that type reference"),
+        (0, "d", "Run(1, 2).Size", 0, 11, [], {"dotted", "right", "unknown-operand", "operand-untyped"}, "member of a procedure's result"),
+        (0, "d", "fp.Size.Size", 0, 9, [], {"dotted", "right", "chained", "unknown-operand", "operand-native"}, "member of an int4 field of a class"),
+        (0, "d", "fp.Size.Size", 0, 4, [sel(files, "aPart", "Size : int4", 0, 0, 4)], {"dotted", "right"}, "the field itself"),
+        (0, "d", "   type.from", 0, 4, [], {"left", "unresolvable"}, "keywords that are identifiers in an expression: nothing declares them"),
+        (0, "d", "   type.from", 0, 9, [], {"dotted", "right", "unknown-operand"}, "…"),
+    ]))
     # --- finding: a field / procedure of a used entity answers for a plain identifier
     A = ("class aA\n\nuses aM\n\nproc First\n   ModProc\n   cModConst\n   fModField = 1\nendproc\n")
     M = "module aM\nconst cModConst = 1\nfModField : int4\nproc ModProc\nendproc\n"
@@ -145,6 +194,19 @@ def c10():
     files = [("aA", A), ("aM", M), ("aN", N)]
     cases.append(case("finding-uses-member-hides-constant", files, [
         (0, "d", "   cBoth", 0, 4, [sel(files, "aN", "cBoth", 0, 0)], {"uses-member", "plain"}, "a procedure of the first used module hides the constant of the second"),
+    ]))
+    # --- finding: a name in TYPE position (type reference, uses entry) is answered with a like-named VARIABLE
+    A = "class aA\n\nuses aB\n\naB : aC\n\nproc P(aC : int4)\n   var v : aB\n   var w : refto aC\n   v.fb\n   w.fc\nendproc\n\nfunc F(p : int4) return aB\n   var AB : int4\nendfunc\n"
+    Bc = "class aB\nfb : int4\n"
+    Cc = "class aC\nfc : int4\n"
+    files = [("aA", A), ("aB", Bc), ("aC", Cc)]
+    cases.append(case("finding-typeref-shadowed", files, [
+        (0, "d", "var v : aB", 0, 9, [sel(files, "aB", "class aB", 0, 6)], {"typeref", "typeref-shadowed"}, "type reference to a used class with a field of that name in the class"),
+        (0, "d", "var w : refto aC", 0, 15, [], {"typeref", "typeref-shadowed"}, "type reference (class neither used nor ancestor: unresolvable) with a parameter of that name"),
+        (0, "d", "return aB", 0, 8, [sel(files, "aB", "class aB", 0, 6)], {"typeref", "rettype", "typeref-shadowed"}, "return type with a local of that name (other letter case)"),
+        (0, "d", "uses aB", 0, 5, [sel(files, "aB", "class aB", 0, 6)], {"uses-entry", "typeref-shadowed"}, "uses entry with a field of that name in the class"),
+        (0, "d", "v.fb", 0, 2, [sel(files, "aB", "fb : int4", 0, 0, 2)], {"dotted", "right"}, "the variable's TYPE is the class all the same: its member resolves"),
+        (0, "d", "w.fc", 0, 2, [sel(files, "aC", "fc : int4", 0, 0, 2)], {"dotted", "right"}, "…"),
     ]))
     # --- excluded edge cases (WellFormedWs): correspondence only
     A = ("class aA\n\nproc First\n   fLate\n   cLate\n   self.fLate\nendproc\n\nfLate : int4\nuses aLate\n\nproc Second\n   fLate\n   cLate\nendproc\n")
@@ -229,6 +291,30 @@ def c11():
         (0, "c", "v.\n   exit", 0, 2, mem, {"dot", "dangling"}, "next line: exit"),
         (0, "c", "v.\nendproc", 0, 2, mem, {"dot", "dangling"}, "next line: the end of the method"),
         (0, "c", "   v.\n   WriteLn", 0, 3, plain, {"stmt-start"}, "statement start of a dangling line"),
+    ]))
+    # a dangling dot on an operand that has no class (native / unresolved type, untyped parameter, undeclared name, a
+    # procedure's result, a variable spelt like a class but of a native type): no proposals, whatever the next line is —
+    # when it starts with an identifier the dot node itself is the node at the cursor
+    Pt = "class aPart\n\nSize : int4\n\nproc Ship\nendProc\n"
+    U = ("class aUser\n\nuses aPart\n\nconst cLimit = 10\n\nproc Run(count : int4, anything, aPart : cstring)\n   var part : aPart\n   var text : cstring\n"
+         "   count.\n   part.Size = 1\n   part.\n   count = cLimit\n   text.\n   if count = 1\n   endif\n   anything.\n   WriteLn(count)\n   zzNothing.\n\n   part.Ship()\n"
+         "   Run(1, 2, 3).\n   text = 'a'\n   aPart.\n   text = 'b'\n   APART.\n   exit\n   text.Si\n   count.\nendProc\n")
+    files = [("aUser", U), ("aPart", Pt)]
+    cases.append(case("shape-dangling-dot-classless-operand", files, [
+        (0, "c", "count.\n   part.Size", 0, 6, [], {"dot", "dangling", "unknown-operand", "operand-native"}, "int4 parameter; next line starts with an identifier (a chain)"),
+        (0, "c", "   part.Size = 1", 0, 3, [], {"dot", "dangling", "continued-start", "unknown-operand"}, "start of that line: still after the dot"),
+        (0, "c", "   part.Size = 1", 0, 8, [], {"dot", "complete", "continued", "unknown-operand"}, "`count.⏎part.` is `count.part.`"),
+        (0, "c", "part.\n   count", 0, 5, ["Ship", "Size"], {"dot", "dangling"}, "an operand that has a class, same next line kind"),
+        (0, "c", "text.\n   if", 0, 5, [], {"dot", "dangling", "unknown-operand", "operand-native"}, "cstring local; next line: a keyword statement"),
+        (0, "c", "anything.\n", 0, 9, [], {"dot", "dangling", "unknown-operand", "operand-untyped"}, "untyped parameter; next line: a call"),
+        (0, "c", "zzNothing.\n", 0, 10, [], {"dot", "dangling", "unknown-operand", "operand-untyped"}, "undeclared name; next line empty, then a chain"),
+        (0, "c", "zzNothing.\n\n", 0, 11, [], {"dot", "dangling", "continued-gap", "unknown-operand"}, "on that empty line"),
+        (0, "c", "Run(1, 2, 3).\n", 0, 13, [], {"dot", "dangling", "unknown-operand", "operand-untyped"}, "a procedure's result; next line: an assignment"),
+        (0, "c", "   aPart.\n", 0, 9, [], {"dot", "dangling", "unknown-operand", "after-entity-named", "operand-native"}, "parameter spelt like a used class, of type cstring"),
+        (0, "c", "   APART.\n", 0, 9, [], {"dot", "dangling", "unknown-operand", "after-entity-named", "operand-native"}, "the same in upper case; next line: exit"),
+        (0, "c", "text.Si\n", 0, 7, [], {"dot", "partial", "unknown-operand", "operand-native"}, "partial name after a cstring local"),
+        (0, "c", "count.\nendProc", 0, 6, [], {"dot", "dangling", "unknown-operand", "operand-native"}, "last statement of the body"),
+        (0, "c", "   count.\n   part", 0, 3, ["aPart", "anything", "cLimit", "count", "part", "text"], {"stmt-start"}, "statement start of the first dangling line"),
     ]))
     # methods without a body open a scope of their own: their parameters are proposed nowhere else
     A = ("class aA(aP)\n\nconst cOwn = 1\nfa : aB\n\nproc Beep(pFreq : int4, pDur : int4) external 'lib.Beep'\n\nfunc Handle(pIdx : int4) return aB forward\n\n"
